@@ -15,7 +15,8 @@ same constants, so the correspondence run compares the code with the model *of t
   catStartAlways    D3  `cat_start = zone_cat_breaks[j]` is executed for every category
   rowsSortedNumpy   D4  `_crosstab_numpy` lists the requested zones in the order of `unique_zones`
   rowsSortedDask    D4  same for `_crosstab_dask_numpy`
-  statsAligns           `stats` calls `validate_arrays(zones, values)` (which rechunks the values)
+  statsAligns           `stats` calls `validate_arrays(zones, values)` (which rechunks the values) and hands the backend
+                        `zones.data` / `values.data` as read after that call
   crosstab2dAligns  D12 2-D dask `crosstab` brings the values onto the zones chunking
   crosstab3dAligns      the 3-D dask path does
   stridesBits           width of the integer array `_strides` returns (the crosstab counts are differences of it)
@@ -487,13 +488,44 @@ def fact_rows_sorted_dask(mod):
 
 # ---------------------------------------------------------------- chunk alignment
 def fact_stats_aligns(mod, repo):
+    """`stats` calls `validate_arrays(zones, values)` as a statement of its own, that function rechunks the later arrays
+    onto the first one's chunks by re-binding their `.data`, and the arrays handed to the backend function
+    (`mapper(values)(<zones array>, <values array>, …)`) are `zones.data` / `values.data` read *after* that statement --
+    written in the call itself, or through a local assigned once after it.  A `.data` read before the validation is
+    the array from before the rechunk."""
     f = find_func(mod, "stats")
     if f is None:
         return False
-    calls = any(isinstance(n, ast.Call) and u(n.func) == "validate_arrays" and [u(a) for a in n.args] == ["zones", "values"]
-                for n in ast.walk(f))
+    body = list(f.body)
+    val_at = [i for i, s in enumerate(body) if isinstance(s, ast.Expr) and isinstance(s.value, ast.Call)
+              and u(s.value.func) == "validate_arrays" and [u(a) for a in s.value.args] == ["zones", "values"]
+              and not s.value.keywords]
+    if len(val_at) != 1:
+        return False
+    backend = [(i, n) for i, s in enumerate(body) for n in ast.walk(s)
+               if isinstance(n, ast.Call) and isinstance(n.func, ast.Call) and len(n.args) >= 2]
+    if len(backend) != 1 or backend[0][0] <= val_at[0]:
+        return False
+    stores = {}
+    for n in ast.walk(f):
+        if isinstance(n, ast.Name) and isinstance(n.ctx, ast.Store):
+            stores[n.id] = stores.get(n.id, 0) + 1
+    if stores.get("zones") or stores.get("values"):
+        return False
+
+    def read_after(arg, want):
+        if u(arg) == want:
+            return True
+        if isinstance(arg, ast.Name) and stores.get(arg.id) == 1:
+            at = [i for i, s in enumerate(body) if isinstance(s, ast.Assign) and len(s.targets) == 1
+                  and u(s.targets[0]) == arg.id and u(s.value) == want]
+            return len(at) == 1 and at[0] > val_at[0]
+        return False
+    call = backend[0][1]
+    if not (read_after(call.args[0], "zones.data") and read_after(call.args[1], "values.data")):
+        return False
     um = ast.parse(open(os.path.join(repo, "xrspatial/utils.py")).read())
-    return calls and validate_arrays_rechunks(find_func(um, "validate_arrays"))
+    return validate_arrays_rechunks(find_func(um, "validate_arrays"))
 
 
 def validate_arrays_rechunks(va):
